@@ -79,3 +79,23 @@ Theorem C06_acquisitions_leave_the_cost_vector_alone :
   (forall costs, Gen_extra.gen_decoupled_acq_costs costs = costs) /\ Gen_extra.gen_decoupled_acq_writes_to_callers_costs = false.
 Proof. split; [intros costs; reflexivity | reflexivity]. Qed.
 Print Assumptions C06_acquisitions_leave_the_cost_vector_alone.
+
+(* every elimination algorithm starts from the state its regenerated __init__ sets up: all designs in S (VOGP_AD: the root
+   node), P and U empty, round, sample count and total cost zero — a well-formed state, the one the run theorems start from *)
+From VOPy Require ExtraRefine2.
+From VOPyGen Require Gen_extra2.
+Theorem C06_initial_states : forall K b L,
+  Gen_extra2.gen_init_paveba K b L = mkast (init_state K) 0 0 0%Q b L /\
+  Gen_extra2.gen_init_pavebagp K b L = mkast (init_state K) 0 0 0%Q b L /\
+  Gen_extra2.gen_init_pavebapartialgp K b L = mkast (init_state K) 0 0 0%Q b L /\
+  Gen_extra2.gen_init_vogp K b L = mkast (init_state K) 0 0 0%Q b L /\
+  Gen_extra2.gen_init_epsilonpal K b L = mkast (init_state K) 0 0 0%Q b L /\
+  Gen_extra2.gen_init_auer K b L = mkast (init_state K) 0 0 0%Q b L /\
+  Gen_extra2.gen_init_vogp_ad K b L = mkast (init_state 1) 0 0 0%Q b L /\
+  wf_state (init_state K).
+Proof.
+  intros K b L. destruct (ExtraRefine2.gen_inits_are_init_state K b L) as [H1 [H2 [H3 [H4 [H5 [H6 H7]]]]]].
+  split; [exact H1|]. split; [exact H2|]. split; [exact H3|]. split; [exact H4|]. split; [exact H5|]. split; [exact H6|].
+  split; [exact H7 | exact (ExtraRefine2.init_state_wf K)].
+Qed.
+Print Assumptions C06_initial_states.
